@@ -148,6 +148,18 @@ def impl_free_set(b):
     return frozenset(s)
 
 
+def first_fit_in(free, size, al):
+    """(run start, offset) of the lowest maximal run of `free` (a set of byte addresses) that holds `size` bytes at alignment `al`"""
+    for st in sorted(x for x in free if x - 1 not in free):
+        en = st
+        while en in free:
+            en += 1
+        off = -(-st // al) * al
+        if off + size <= en:
+            return st, off
+    return None
+
+
 def replay_graph(c, res, want):
     """returns list of (oracle, failure, detail, case)"""
     work = tempfile.mkdtemp(prefix="xoverif-tlc-", dir=os.getcwd())
@@ -196,20 +208,50 @@ def replay_graph(c, res, want):
                 do(b, a)
             res.transitions += 1
             res.events["tla-" + act[0]] += 1
+            source = nodes[u]
+            if b.capacity != source["cap"] or impl_free_set(b) != source["free"]:
+                # The specification's growth *amount* (GrowBy) mirrors one policy; the property leaves the amount open.  A path on
+                # which the implementation grew by another amount (judged on that edge, below) does not reach this model state.
+                res.outcomes["tla-skip:source-state-needs-the-specification's-growth-amount"] += 1
+                continue
             target = nodes[v]
             failure = None
             try:
                 r = do(b, act)
             except Exception as e:
                 failure = ("C12.model-conformance", "raises:" + common.exc_failure(e), "edge %s from model state %r: %r" % (lab, nodes[u], e))
+            other_amount = False
+            if failure is None and b.capacity != target["cap"]:
+                if b.capacity < source["cap"]:
+                    failure = ("C12.capacity-monotone", "tla-capacity-shrinks", "edge %s: capacity %d after %d" % (lab, b.capacity, source["cap"]))
+                elif target["cap"] == source["cap"]:
+                    failure = ("C12.grow-only-if-needed", "tla-capacity", "edge %s: capacity %d, specification %d (no growth needed)" % (lab, b.capacity, target["cap"]))
+                elif b.capacity == source["cap"]:
+                    failure = ("C12.model-conformance", "tla-no-growth", "edge %s: capacity stays %d, specification grows to %d" % (lab, b.capacity, target["cap"]))
+                else:
+                    other_amount = True  # grew when the specification grows, by another amount: judged against first fit in the capacity it chose
+            if failure is None and other_amount:
+                free1 = set(source["free"]) | set(range(source["cap"], b.capacity))
+                if act[0] == "alloc":
+                    al = c["Align"] if act[2] else 1
+                    ff = first_fit_in(free1, act[1], al)
+                    if ff is None or int(r) != ff[1]:
+                        failure = ("C12.first-fit", "tla-placement", "edge %s: implementation returned %r after growing to %d, first fit there is %r (model state %r)" % (lab, r, b.capacity, ff, nodes[u]))
+                    else:
+                        free1 -= set(range(ff[0], ff[1] + act[1]))
+                if failure is None and impl_free_set(b) != free1:
+                    failure = ("C12.accounting", "tla-free-set", "edge %s: free bytes %r, expected %r in capacity %d" % (lab, sorted(impl_free_set(b)), sorted(free1), b.capacity))
+                if failure is None and b.get_free() != len(free1):
+                    failure = ("C12.accounting", "tla-free-total", "edge %s: get_free()=%d, expected %d" % (lab, b.get_free(), len(free1)))
+                if failure is None:
+                    res.outcomes["tla-ok:%s:other-growth-amount" % act[0]] += 1
+                    continue
             if failure is None:
                 if act[0] == "alloc":
                     new = target["live"] - nodes[u]["live"]
                     exp = sorted(new)[0][0] if new else None
                     if exp is None or int(r) != exp:
                         failure = ("C12.first-fit", "tla-placement", "edge %s: implementation returned %r, specification places it at %r (model state %r)" % (lab, r, exp, nodes[u]))
-                if failure is None and b.capacity != target["cap"]:
-                    failure = ("C12.grow-only-if-needed", "tla-capacity", "edge %s: capacity %d, specification %d" % (lab, b.capacity, target["cap"]))
                 if failure is None and impl_free_set(b) != target["free"]:
                     failure = ("C12.accounting", "tla-free-set", "edge %s: free bytes %r, specification %r" % (lab, sorted(impl_free_set(b)), sorted(target["free"])))
                 if failure is None and b.get_free() != len(target["free"]):
